@@ -270,11 +270,11 @@ def jobs(tier, seed=0):
                 if any(k == 2 and not weak_allowed(paths, u, v) for (u, v), k in zip(ring, rk)):
                     continue
                 for ck in itertools.product((0, 1), repeat=len(chords)):
-                    if sum(ck) > 2:
+                    if sum(ck) > 1:
                         continue
                     st = {f'{u}>{v}': k for (u, v), k in zip(ring, rk)}
                     st.update({f'{u}>{v}': 1 for (u, v), k in zip(chords, ck) if k})
                     sts.append(st)
-            for ci, ch in enumerate(chunks(sts, 12)):
+            for ci, ch in enumerate(chunks(sts, 6)):
                 out.append({'id': f'n4|t{ti}|c{ci}', 'harness': 'vk.kernels.c06:cycles', 'params': {'tree': tree, 'structs': ch}, 'budget_s': 600})
     return out
